@@ -271,7 +271,8 @@ def run(tier):
         'same satisfying assignments - and the variable counts and name lists are compared. A refusal must occur in both '
         'classes. Self-test: the OPB side with its last row dropped must be told apart.')
     run.bounds = ['library level: the %s boxes of C01, C02, C03 (class stripped)' % tier,
-                  'command-line level: %d argv vectors over deterministic graph constructions (complete/grid/torus/empty/shift/path/tree/pyramid)' % len(CLI_ARGV)]
+                  'command-line level: %d argv vectors over deterministic graph constructions (complete/grid/torus/empty/shift/path/tree/pyramid), the dimacs family on 13 files (one with tautological clauses and repeated literals) and 45 seeded random command lines' % len(CLI_ARGV),
+                  'size-threshold points of vlib/bigpoints.py for every family harness (parameters around 10/11, 16/17, 32/33; e.g. Tseitin on K10/K11: parities over 9 and 10 literals); 15 s solver budget, undecided ones counted as big_inconclusive']
     run.outside = ['parameters beyond the boxes', 'unseeded random families (their draws differ between two runs); seeded ones are compared for three seeds (sampled)']
     run.assumptions = ['z3 Pb constraints are sound', 'OPB rows are read as documented in BaseOPB']
     items = list(points(tier))
